@@ -150,6 +150,15 @@ def inject(data, fault, rnd):
             if not others:
                 return None
             s['memory'] = rnd.choice(others)
+        if rnd.random() < 0.6:
+            # well-formed history states without a memory elsewhere in the document, before and after the faulty
+            # one in every traversal order
+            k = 0
+            for c, _ in sts:
+                if c.get('states') and not c.get('type') and rnd.random() < 0.7:
+                    k += 1
+                    c['states'].insert(rnd.randint(0, len(c['states'])),
+                                       {'name': 'hm-%d' % k, 'type': rnd.choice(['shallow history', 'deep history'])})
         return '%s on %r' % (fault, s['name'])
     if fault == 'unknown_key':
         level = rnd.choice(['top', 'statechart', 'state', 'transition', 'contract'])
